@@ -152,3 +152,78 @@ async def inject(port, tokens, context, terminate: bool = True):
         port.put(t)
     if terminate:
         port.put(TerminationToken())
+
+
+from streamflow.workflow.step import BaseStep, _group_by_tag, _reduce_statuses  # noqa: E402
+from streamflow.workflow.utils import check_termination  # noqa: E402
+from streamflow.core.utils import get_entity_ids  # noqa: E402
+import asyncio  # noqa: E402
+import posixpath  # noqa: E402
+
+
+class SimParallel(BaseStep):
+    """Element-wise step that processes every tag in its own task (as ExecuteStep runs jobs
+    concurrently): outputs appear in completion order, which the seeded per-tag latency decides.
+    Same function table and failure injection as SimTransformer."""
+
+    def __init__(self, name, workflow, fn: str = "id", fail_tags=None):
+        super().__init__(name, workflow)
+        self.fn = fn
+        self.fail_tags = list(fail_tags or [])
+
+    @classmethod
+    async def _load(cls, row, loading_context):
+        p = row["params"]
+        return cls(name=row["name"], workflow=await loading_context.load_workflow(row["workflow"]),
+                   fn=p["fn"], fail_tags=p["fail_tags"])
+
+    async def _save_additional_params(self, database):
+        return (await super()._save_additional_params(database)) | {"fn": self.fn, "fail_tags": self.fail_tags}
+
+    async def _process(self, inputs):
+        sim = core.CURRENT
+        tag = next(iter(inputs.values())).tag
+        await sim.io("job", f"{self.name}:{tag}")
+        if tag in self.fail_tags:
+            sim.fault("transform_raises")
+            raise RuntimeError(f"injected failure in {self.name} tag {tag}")
+        vals = [plain(inputs[k]) for k in sorted(inputs)]
+        res = FUNCS[self.fn](self.name, vals)
+        for k in self.output_ports:
+            port = self.get_output_port(k)
+            port.put(await self._persist_token(to_token(res, tag), port, get_entity_ids(inputs.values())))
+        return Status.COMPLETED
+
+    async def run(self):
+        input_ports = self.get_input_ports()
+        inputs_map: dict = {}
+        statuses = []
+        pending = {asyncio.create_task(self._get_inputs(input_ports), name="retrieve_inputs")}
+        try:
+            while pending:
+                finished, pending = await asyncio.wait(pending, return_when=asyncio.FIRST_COMPLETED)
+                for task in sorted(finished, key=lambda x: x.sim_id):
+                    if task.get_name() == "retrieve_inputs":
+                        inputs = task.result()
+                        if check_termination(inputs.values()):
+                            statuses.append(_reduce_statuses([t.value for t in inputs.values()]))
+                        else:
+                            _group_by_tag(inputs, inputs_map)
+                            for tag in list(inputs_map):
+                                if len(inputs_map[tag]) == len(input_ports):
+                                    pending.add(asyncio.create_task(self._process(inputs_map.pop(tag)), name=f"job-{tag}"))
+                            pending.add(asyncio.create_task(self._get_inputs(input_ports), name="retrieve_inputs"))
+                    else:
+                        statuses.append(task.result())
+            await self.terminate(self._get_status(_reduce_statuses(statuses)))
+        except asyncio.CancelledError:
+            for p in pending:
+                p.cancel()
+            await self.terminate(Status.CANCELLED)
+        except Exception as e:
+            from streamflow.log_handler import logger
+
+            logger.exception(e)
+            for p in pending:
+                p.cancel()
+            await self.terminate(Status.FAILED)
